@@ -49,6 +49,7 @@ var _ brainAPI = (*brain.Server)(nil)
 type grpcNode struct {
 	gs   *grpc.Server
 	conn *grpc.ClientConn
+	addr string
 	etcdGRPC
 	brainGRPC
 }
@@ -86,7 +87,7 @@ func newGRPCNodeFor(register func(gs *grpc.Server), m metrics.Metrics) (*grpcNod
 		gs.Stop()
 		return nil, err
 	}
-	return &grpcNode{gs: gs, conn: conn,
+	return &grpcNode{gs: gs, conn: conn, addr: lis.Addr().String(),
 		etcdGRPC:  etcdGRPC{kv: etcdserverpb.NewKVClient(conn), watch: etcdserverpb.NewWatchClient(conn), lease: etcdserverpb.NewLeaseClient(conn)},
 		brainGRPC: brainGRPC{read: pb.NewReadClient(conn), write: pb.NewWriteClient(conn), watch: pb.NewWatchClient(conn)}}, nil
 }
